@@ -67,6 +67,7 @@ func Mix(seed uint64, salt string, idx uint64) uint64 {
 type Tape struct {
 	Seed   uint64
 	Replay bool
+	genDyn bool // replayed scenario, generated dynamic stream
 	scen   []uint32 // input cells in replay mode
 	dyn    []uint32
 	si, di int
@@ -85,6 +86,14 @@ func NewGenTape(seed uint64) *Tape {
 
 func NewReplayTape(scen, dyn []uint32) *Tape {
 	return &Tape{Replay: true, scen: scen, dyn: dyn, Aux: newPRNG(1)}
+}
+
+// NewMixedTape replays the scenario stream and generates the dynamic stream
+// (schedule, chunk sizes) from a PRNG: used by the minimiser to look for a new
+// schedule after it simplified the scenario.
+func NewMixedTape(scen []uint32, seed uint64) *Tape {
+	x := seed
+	return &Tape{Replay: true, genDyn: true, scen: scen, drng: newPRNG(splitmix(&x)), Aux: newPRNG(splitmix(&x))}
 }
 
 func clip(c uint32, n int) int {
@@ -138,7 +147,7 @@ func (t *Tape) DF(n int, gen func(r *Rand) int) int {
 		n = 1
 	}
 	var v int
-	if t.Replay {
+	if t.Replay && !t.genDyn {
 		if t.di < len(t.dyn) {
 			v = clip(t.dyn[t.di], n)
 		}
